@@ -14,6 +14,11 @@ CHECKS = {
         ref="§4 C12"),
 }
 
+CHECKS["C13"] = dict(
+    text="All names up to the stated lengths over two alphabets (plain words/commas/ties; braces/escapes/special characters) are executed symbolically through the real parse_single_name_into_parts and SplitNameParts; per final world z3 decides equality with an executable transcription of BibTeX's rules that is first validated on the repository's 149-case BibTeX-derived corpus.",
+    note="Trusted: pysym interpreter/models, the oracle checks/names_oracle.py (validated on the repo corpus each run), z3. Inputs the oracle marks 'unspecified' (nested special characters etc.) are skipped.",
+    ref="§4 C13")
+
 NOT_YET = "check not built yet in this round (engine exists; harness pending)"
 
 def main():
